@@ -32,11 +32,19 @@ pub async fn exec_script(who: Who, ops: &[Op], me: SelfRef<'_>) -> Flow {
     Flow::Continue
 }
 
-fn dur(ms: u64) -> Duration {
-    if ms == FOREVER {
+fn dur(us: u64) -> Duration {
+    if us == FOREVER {
         Duration::MAX
     } else {
-        Duration::from_millis(ms)
+        Duration::from_micros(us)
+    }
+}
+
+fn ms_to_us(ms: u64) -> u64 {
+    if ms == FOREVER {
+        FOREVER
+    } else {
+        ms.saturating_mul(1000)
     }
 }
 
@@ -235,7 +243,7 @@ fn unit_res(r: rsactor::Result<()>) -> Res {
 }
 
 /// The async part of a send-family operation, already bound to its handle.
-fn send_future(who: Who, k: u32, tag: OpTag, hd: Handle, m: &Msg, ms: Option<u64>) -> Option<(BoxFut<'static, Res>, String)> {
+fn send_future(who: Who, k: u32, tag: OpTag, hd: Handle, m: &Msg, us: Option<u64>) -> Option<(BoxFut<'static, Res>, String)> {
     let msg = m.clone();
     let erase = |n: u64| erase_choice(who, k, n);
     let is_work = matches!(msg.kind, MsgKind::Work);
@@ -245,11 +253,11 @@ fn send_future(who: Who, k: u32, tag: OpTag, hd: Handle, m: &Msg, ms: Option<u64
             if is_work {
                 if let Some(c) = erase(7) {
                     let (b, via) = erased_tell(r, c);
-                    return Some((tell_boxed(b, msg, ms), via.to_string()));
+                    return Some((tell_boxed(b, msg, us), via.to_string()));
                 }
             }
             let f: BoxFut<'static, Res> = Box::pin(async move {
-                match (&msg.kind, ms) {
+                match (&msg.kind, us) {
                     (MsgKind::Work, None) => unit_res(r.tell(Work(msg)).await),
                     (MsgKind::Work, Some(t)) => unit_res(r.tell_with_timeout(Work(msg), dur(t)).await),
                     (MsgKind::WorkR { .. }, None) => unit_res(r.tell(WorkR(msg)).await),
@@ -260,17 +268,17 @@ fn send_future(who: Who, k: u32, tag: OpTag, hd: Handle, m: &Msg, ms: Option<u64
             });
             Some((f, "ref".into()))
         }
-        (OpTag::Tell | OpTag::TellT, Handle::Tell(b)) if is_work => Some((tell_boxed(b, msg, ms), "slot:tellh".into())),
+        (OpTag::Tell | OpTag::TellT, Handle::Tell(b)) if is_work => Some((tell_boxed(b, msg, us), "slot:tellh".into())),
         // ------------------------------------------------------------------ ask family
         (OpTag::Ask | OpTag::AskT, Handle::Strong(r)) => {
             if is_work {
                 if let Some(c) = erase(7) {
                     let (b, via) = erased_ask(r, c);
-                    return Some((ask_boxed(b, msg, ms), via.to_string()));
+                    return Some((ask_boxed(b, msg, us), via.to_string()));
                 }
             }
             let f: BoxFut<'static, Res> = Box::pin(async move {
-                match (&msg.kind, ms) {
+                match (&msg.kind, us) {
                     (MsgKind::Work, None) => reply_res(r.ask(Work(msg)).await),
                     (MsgKind::Work, Some(t)) => reply_res(r.ask_with_timeout(Work(msg), dur(t)).await),
                     (MsgKind::WorkR { .. }, None) => match r.ask(WorkR(msg)).await {
@@ -288,7 +296,7 @@ fn send_future(who: Who, k: u32, tag: OpTag, hd: Handle, m: &Msg, ms: Option<u64
             });
             Some((f, "ref".into()))
         }
-        (OpTag::Ask | OpTag::AskT, Handle::Ask(b)) if is_work => Some((ask_boxed(b, msg, ms), "slot:askh".into())),
+        (OpTag::Ask | OpTag::AskT, Handle::Ask(b)) if is_work => Some((ask_boxed(b, msg, us), "slot:askh".into())),
         (OpTag::AskJoin, Handle::Strong(r)) => {
             let f: BoxFut<'static, Res> = Box::pin(async move {
                 match r.ask_join(JoinWork(msg)).await {
@@ -315,18 +323,18 @@ fn send_future(who: Who, k: u32, tag: OpTag, hd: Handle, m: &Msg, ms: Option<u64
     }
 }
 
-fn tell_boxed(b: Box<dyn TellHandler<Work>>, msg: Msg, ms: Option<u64>) -> BoxFut<'static, Res> {
+fn tell_boxed(b: Box<dyn TellHandler<Work>>, msg: Msg, us: Option<u64>) -> BoxFut<'static, Res> {
     Box::pin(async move {
-        match ms {
+        match us {
             None => unit_res(b.tell(Work(msg)).await),
             Some(t) => unit_res(b.tell_with_timeout(Work(msg), dur(t)).await),
         }
     })
 }
 
-fn ask_boxed(b: Box<dyn AskHandler<Work, Reply>>, msg: Msg, ms: Option<u64>) -> BoxFut<'static, Res> {
+fn ask_boxed(b: Box<dyn AskHandler<Work, Reply>>, msg: Msg, us: Option<u64>) -> BoxFut<'static, Res> {
     Box::pin(async move {
-        match ms {
+        match us {
             None => reply_res(b.ask(Work(msg)).await),
             Some(t) => reply_res(b.ask_with_timeout(Work(msg), dur(t)).await),
         }
@@ -337,24 +345,24 @@ fn budget_ok() -> bool {
     tokio::task::coop::has_budget_remaining()
 }
 
-async fn do_send(who: Who, k: u32, tag: OpTag, h: u32, m: Option<&Msg>, ms: Option<u64>) {
+async fn do_send(who: Who, k: u32, tag: OpTag, h: u32, m: Option<&Msg>, us: Option<u64>) {
     let dummy = Msg::work(0);
     let (hd, a) = match slot(h) {
         Some(x) => x,
         None => {
-            log(EvKind::Inv { who, k, op: tag, a: None, mid: m.map(|m| m.id), ms, via: "none".into(), budget: budget_ok() });
+            log(EvKind::Inv { who, k, op: tag, a: None, mid: m.map(|m| m.id), us, via: "none".into(), budget: budget_ok() });
             log(EvKind::Ret { who, k, res: Res::NoHandle, polls: 0 });
             return;
         }
     };
     let kind = hd.kind();
-    match send_future(who, k, tag, hd, m.unwrap_or(&dummy), ms) {
+    match send_future(who, k, tag, hd, m.unwrap_or(&dummy), us) {
         None => {
-            log(EvKind::Inv { who, k, op: tag, a: Some(a), mid: m.map(|m| m.id), ms, via: kind.into(), budget: budget_ok() });
+            log(EvKind::Inv { who, k, op: tag, a: Some(a), mid: m.map(|m| m.id), us, via: kind.into(), budget: budget_ok() });
             log(EvKind::Ret { who, k, res: Res::Unsupported, polls: 0 });
         }
         Some((fut, via)) => {
-            log(EvKind::Inv { who, k, op: tag, a: Some(a), mid: m.map(|m| m.id), ms, via, budget: budget_ok() });
+            log(EvKind::Inv { who, k, op: tag, a: Some(a), mid: m.map(|m| m.id), us, via, budget: budget_ok() });
             let (res, polls) = Tracked { fut, who, k, polls: 0, done: false }.await;
             if matches!(res, Res::ErrTimeout { .. }) {
                 world::with(|w| w.probes.timeouts_fired += 1);
@@ -371,7 +379,7 @@ fn kill_handle(who: Who, k: u32, h: u32) {
     let (hd, a) = match slot(h) {
         Some(x) => x,
         None => {
-            log(EvKind::Inv { who, k, op: OpTag::Kill, a: None, mid: None, ms: None, via: "none".into(), budget: true });
+            log(EvKind::Inv { who, k, op: OpTag::Kill, a: None, mid: None, us: None, via: "none".into(), budget: true });
             log(EvKind::Ret { who, k, res: Res::NoHandle, polls: 0 });
             return;
         }
@@ -380,28 +388,28 @@ fn kill_handle(who: Who, k: u32, h: u32) {
         Handle::Strong(r) => match erase_choice(who, k, 7) {
             Some(c) => {
                 let (b, via) = erased_ctl(r, c);
-                log(EvKind::Inv { who, k, op: OpTag::Kill, a: Some(a), mid: None, ms: None, via: via.into(), budget: true });
+                log(EvKind::Inv { who, k, op: OpTag::Kill, a: Some(a), mid: None, us: None, via: via.into(), budget: true });
                 (Some(b.kill()), String::new())
             }
             None => {
-                log(EvKind::Inv { who, k, op: OpTag::Kill, a: Some(a), mid: None, ms: None, via: "ref".into(), budget: true });
+                log(EvKind::Inv { who, k, op: OpTag::Kill, a: Some(a), mid: None, us: None, via: "ref".into(), budget: true });
                 (Some(r.kill()), String::new())
             }
         },
         Handle::Ctl(b) => {
-            log(EvKind::Inv { who, k, op: OpTag::Kill, a: Some(a), mid: None, ms: None, via: "slot:ctl".into(), budget: true });
+            log(EvKind::Inv { who, k, op: OpTag::Kill, a: Some(a), mid: None, us: None, via: "slot:ctl".into(), budget: true });
             (Some(b.kill()), String::new())
         }
         Handle::Tell(b) => {
-            log(EvKind::Inv { who, k, op: OpTag::Kill, a: Some(a), mid: None, ms: None, via: "slot:tellh.as_control".into(), budget: true });
+            log(EvKind::Inv { who, k, op: OpTag::Kill, a: Some(a), mid: None, us: None, via: "slot:tellh.as_control".into(), budget: true });
             (Some(b.as_control().kill()), String::new())
         }
         Handle::Ask(b) => {
-            log(EvKind::Inv { who, k, op: OpTag::Kill, a: Some(a), mid: None, ms: None, via: "slot:askh.as_control".into(), budget: true });
+            log(EvKind::Inv { who, k, op: OpTag::Kill, a: Some(a), mid: None, us: None, via: "slot:askh.as_control".into(), budget: true });
             (Some(b.as_control().kill()), String::new())
         }
         other => {
-            log(EvKind::Inv { who, k, op: OpTag::Kill, a: Some(a), mid: None, ms: None, via: other.kind().into(), budget: true });
+            log(EvKind::Inv { who, k, op: OpTag::Kill, a: Some(a), mid: None, us: None, via: other.kind().into(), budget: true });
             (None, String::new())
         }
     };
@@ -417,13 +425,13 @@ fn observe(who: Who, k: u32, tag: OpTag, h: u32) {
     let (hd, a) = match slot(h) {
         Some(x) => x,
         None => {
-            log(EvKind::Inv { who, k, op: tag, a: None, mid: None, ms: None, via: "none".into(), budget: true });
+            log(EvKind::Inv { who, k, op: tag, a: None, mid: None, us: None, via: "none".into(), budget: true });
             log(EvKind::Ret { who, k, res: Res::NoHandle, polls: 0 });
             return;
         }
     };
     let via = hd.kind().to_string();
-    log(EvKind::Inv { who, k, op: tag, a: Some(a), mid: None, ms: None, via, budget: true });
+    log(EvKind::Inv { who, k, op: tag, a: Some(a), mid: None, us: None, via, budget: true });
     let ident = |id: rsactor::Identity| {
         let a = world::actor_of_raw(id.id);
         Res::Ident { a, raw: if a.is_some() { 0 } else { id.id }, name: id.name().to_string() }
@@ -666,6 +674,24 @@ fn burn_budget() -> impl Future<Output = ()> + Send {
     })
 }
 
+/// n immediately-ready budgeted operations: consumes one budget unit each; when the budget is
+/// exhausted it yields (Pending + wake) and continues afterwards, as any tokio resource would.
+async fn consume_budget(n: u32) {
+    for _ in 0..n {
+        std::future::poll_fn(|cx| match tokio::task::coop::poll_proceed(cx) {
+            Poll::Ready(restore) => {
+                restore.made_progress();
+                Poll::Ready(())
+            }
+            Poll::Pending => {
+                world::with(|w| w.probes.budget_exhausted += 1);
+                Poll::Pending
+            }
+        })
+        .await;
+    }
+}
+
 pub fn exec<'a>(who: Who, k: u32, op: &'a Op, me: SelfRef<'a>) -> BoxFut<'a, Flow> {
     Box::pin(async move {
         match op {
@@ -690,9 +716,12 @@ pub fn exec<'a>(who: Who, k: u32, op: &'a Op, me: SelfRef<'a>) -> BoxFut<'a, Flo
             Op::Signal(f) => world::signal(*f),
             Op::BurnBudget => burn_budget().await,
             Op::Tell { h, m } => do_send(who, k, OpTag::Tell, *h, Some(m), None).await,
-            Op::TellT { h, m, ms } => do_send(who, k, OpTag::TellT, *h, Some(m), Some(*ms)).await,
+            Op::TellT { h, m, ms } => do_send(who, k, OpTag::TellT, *h, Some(m), Some(ms_to_us(*ms))).await,
+            Op::TellUs { h, m, us } => do_send(who, k, OpTag::TellT, *h, Some(m), Some(*us)).await,
+            Op::AskUs { h, m, us } => do_send(who, k, OpTag::AskT, *h, Some(m), Some(*us)).await,
+            Op::ConsumeBudget(n) => consume_budget(*n).await,
             Op::Ask { h, m } => do_send(who, k, OpTag::Ask, *h, Some(m), None).await,
-            Op::AskT { h, m, ms } => do_send(who, k, OpTag::AskT, *h, Some(m), Some(*ms)).await,
+            Op::AskT { h, m, ms } => do_send(who, k, OpTag::AskT, *h, Some(m), Some(ms_to_us(*ms))).await,
             Op::AskJoin { h, m } => do_send(who, k, OpTag::AskJoin, *h, Some(m), None).await,
             Op::Stop { h } => do_send(who, k, OpTag::Stop, *h, None, None).await,
             Op::Kill { h } => kill_handle(who, k, *h),
@@ -705,12 +734,12 @@ pub fn exec<'a>(who: Who, k: u32, op: &'a Op, me: SelfRef<'a>) -> BoxFut<'a, Flo
                 let tag = if matches!(op, Op::StopSelf) { OpTag::Stop } else { OpTag::Kill };
                 match r {
                     None => {
-                        log(EvKind::Inv { who, k, op: tag, a: who.actor_ctx(), mid: None, ms: None, via: "self:none".into(), budget: budget_ok() });
+                        log(EvKind::Inv { who, k, op: tag, a: who.actor_ctx(), mid: None, us: None, via: "self:none".into(), budget: budget_ok() });
                         log(EvKind::Ret { who, k, res: Res::NoHandle, polls: 0 });
                     }
                     Some(r) => {
                         let a = world::actor_of_raw(r.identity().id);
-                        log(EvKind::Inv { who, k, op: tag, a, mid: None, ms: None, via: "self".into(), budget: budget_ok() });
+                        log(EvKind::Inv { who, k, op: tag, a, mid: None, us: None, via: "self".into(), budget: budget_ok() });
                         if tag == OpTag::Kill {
                             let res = unit_res(r.kill());
                             log(EvKind::Ret { who, k, res, polls: 1 });
